@@ -503,3 +503,38 @@ Definition doc_depth (D : document) : nat :=
           (fold_right (fun f acc => Nat.max (sels_depth (fr_sels f)) acc) O (frags D)).
 Definition default_fuel (D : document) : nat :=
   ((length (frags D) + 1) * (doc_depth D + 1))%nat.
+
+(** ** GetOperation (executor.go) and the head of ExecuteRequest / newExecutor.
+    [opname] is Request.OperationName; the empty string stands for "none given".  The loop runs
+    over the definitions in document order, keeps the first match and fails at the second. *)
+Inductive gop := GOp (o : operation) | GMultiple (p : pos) | GNoMatch.
+
+Definition op_matches (opname : name) (o : operation) : bool :=
+  match opname with
+  | [] => true
+  | _ => match o_name o with Some n => name_eqb n opname | None => false end
+  end.
+
+Fixpoint get_operation_loop (ops : list operation) (opname : name) (ret : option operation) : gop :=
+  match ops with
+  | [] => match ret with Some o => GOp o | None => GNoMatch end
+  | o :: rest =>
+      if op_matches opname o then
+        match ret with
+        | Some _ => GMultiple (o_pos o)            (* newError(def, "Multiple matching operations.") *)
+        | None => get_operation_loop rest opname (Some o)
+        end
+      else get_operation_loop rest opname ret
+  end.
+Definition get_operation (R : request_doc) (opname : name) : gop := get_operation_loop (r_ops R) opname None.
+
+(** ExecuteRequest: a GetOperation error is the whole response (no data, that one error; "No
+    matching operations." has no node, hence no location).  [E]: the coerced variables of the
+    selected operation (CoerceVariableValues is C05; a coercion error is outside this model). *)
+Definition run_request (M : mode) (S : schema) (R : request_doc) (opname : name) (E : env) (fuel : nat)
+           (W : outcome) : run_result :=
+  match get_operation R opname with
+  | GOp o => run M S (doc_of R o) E fuel W
+  | GMultiple p => Done None [mk_err [] [p]]
+  | GNoMatch => Done None [mk_err [] []]
+  end.
